@@ -103,7 +103,7 @@ def nontrivial(case):
 def run(rep, tier, scratch, only=None):
     consts = {'Times': '{0, 1, 2, 3, 5}', 'TVars': '{"x", "y"}',
               'MaxEv': 3 if tier == 'quick' else 4,
-              'TSteps': '{1, 2, 4}', 'RunLen': '{8}' if tier == 'quick' else '{5, 8}'}
+              'TSteps': '{1, 2, 4}', 'RunLen': '{6}' if tier == 'quick' else '{5, 8}'}
     cfg = table.cfg(consts, LAWS) + 'PROPERTIES\n  C19_NeverRefired\n'
     cases = table.run_table(rep, 'Timeline', 'Timeline_' + tier, cfg, scratch)
     for k, c in enumerate(cases):
